@@ -64,7 +64,7 @@ func runTest(fileName string, in io.Reader, out io.Writer, env *object.Env) int 
 	inner := object.NewEnclosedEnv(env)
 	inner.SetSourceFilePath(fileName)
 
-	exitCode := runSource(parser.NewReader(fp, fileName), in, out, env)
+	exitCode := runSource(parser.NewReader(fp, fileName), in, out, inner)
 	return exitCode
 }
 
